@@ -164,6 +164,12 @@ func loadHarnessFiles(id string) ([]harnessFile, error) {
 			return nil, err
 		}
 		out = append(out, hs...)
+		if d := os.Getenv("VERIF_DUMPGEN"); d != "" { // debugging: write the generated harness sources to a directory
+			os.MkdirAll(d, 0o755)
+			for _, h := range hs {
+				os.WriteFile(filepath.Join(d, strings.ReplaceAll(h.dir, "/", "_")+"_"+filepath.Base(h.path)), h.src, 0o644)
+			}
+		}
 	}
 	if len(out) == 0 {
 		return nil, fmt.Errorf("no harness files for %s", id)
